@@ -701,3 +701,32 @@ Theorem reachable_sorted c k y' :
 Proof.
   intros H. destruct (run_state_J _ _ _ _ _ (init_J c) H) as (st' & _ & _ & Hs & _). exact Hs.
 Qed.
+
+(* ------------------------------------------------------------------ non-vacuity *)
+Definition ex_msg (q v : Z) : msg := mk_msg q (1000 * q) 1 [(3, v, 0)].
+Definition ex_rt : list (Z * Z * msg) :=
+  rt_insert (2, 1) (ex_msg 1 7) (rt_insert (1, 2) (ex_msg 2 6) (rt_insert (1, 1) (ex_msg 1 5) [])).
+Definition ex_subs : list sub :=
+  [mk_sub 1 1000 30 3 0 [] 2 30 3 true true 3 2 1 0 []; mk_sub 2 1000 30 3 0 [] 2 30 3 true true 2 1 1 0 []].
+
+Example ex_rt_sorted : rsorted ex_rt.
+Proof. repeat apply rsorted_insert. apply rsorted_nil. Qed.
+Example ex_acks :
+  process_acks ex_subs [(1, 1); (1, 1); (1, 9); (7, 1)] ex_rt
+  = ([ST_GOOD; ST_SEQ_UNKNOWN; ST_SEQ_UNKNOWN; ST_SUB_INVALID], [((1, 2), ex_msg 2 6); ((2, 1), ex_msg 1 7)]).
+Proof. vm_compute. reflexivity. Qed.
+Example ex_republish : rt_find (1, 2) ex_rt = Some (ex_msg 2 6) /\ rt_find (1, 3) ex_rt = None.
+Proof. split; vm_compute; reflexivity. Qed.
+
+(* a history with acknowledgements, republish and a deleted subscription *)
+Definition ex_case : case :=
+  mk_case 1 [OCreateSub 0 1000 2 100 true; OCreateItem 1 0 2 (-1) 2 true; OTick 0; OPublish 0 0 []; OTick 1000;
+             OWrite 0 1; OPublish 0 0 []; OTick 1000; ORepublish 1 1; ORepublish 1 2; ORepublish 1 3; ORepublish 2 1;
+             OPublish 0 0 [(1, 1)]; OTick 1000; ORepublish 1 1; ORepublish 1 2;
+             OPublish 0 0 [(1, 1); (9, 1); (1, 2); (1, 2)]; OWrite 0 2; OTick 1000; ODeleteSub 1; ORepublish 1 3; OTick 1000].
+Example ex_case_ok : oracle ex_case (run ex_case) = true.
+Proof. vm_compute. reflexivity. Qed.
+Example ex_case_statuses :
+  map o_status (filter (fun r => negb (is_nil (o_resps r)) || is_some (o_msg r) || negb (o_status r =? 0)) (fst (run_ev ex_case)))
+  <> [].
+Proof. vm_compute. discriminate. Qed.
